@@ -1,7 +1,7 @@
 #!/bin/bash
 # check.sh <property> <quick|thorough>     run one check against /repo's current working tree
 # check.sh replay <file>                   re-execute a replay file
-# check.sh selftest determinism [seeds]
+# check.sh selftest determinism [seeds]   |   check.sh selftest sensitivity [pattern]
 # Exit 0: held on everything explored. Exit 1: "VIOLATION property=<id> replay=<path>" printed.
 # Exit 2: trouble of the harness's own (build, rewrite, watchdog, non-reproducible report).
 set -u
@@ -17,7 +17,9 @@ build
 ulimit -v 62914560 2>/dev/null || true
 case "${1:-}" in
   replay)   exec "$HERE/bin/simcheck" replay "$2" ;;
-  selftest) shift; exec "$HERE/bin/simcheck" selftest "$@" ;;
+  selftest) shift
+            if [ "${1:-}" = sensitivity ]; then shift; exec "$HERE/sensitivity.sh" "$@"; fi
+            exec "$HERE/bin/simcheck" selftest "$@" ;;
   setup)    exec "$HERE/bin/simcheck" warm ;;
   C01|C10|C11|C12|C13)
             exec "$HERE/bin/simcheck" check -prop "$1" -tier "${2:-${VERIF_TIER:-quick}}" ;;
